@@ -394,6 +394,10 @@ def tie(ctx, n_curves):
     lines, expect = [], []
     for i in range(n_curves):
         idnt, meta = make_curve(rng, integer=True, small=True)
+        if i % 4 == 1:
+            # an exactly flat baseline (noise-free simulated data): every baseline sample ties with the threshold
+            meta.update(noise=0, tilt=0, drift=0)
+            idnt = build_curve(meta)
         k = idnt.metadata["spring constant"]
         case = {"curve": meta}
         # tip separation
@@ -403,7 +407,8 @@ def tie(ctx, n_curves):
         # force offset
         b, a, _ = before_after(idnt, [], "correct_force_offset", {})
         lines.append({"op": "force_offset", "f": ql(b["force"])})
-        expect.append(("force_offset", case, a["force"], poc.compute_poc(b["force"], "deviation_from_baseline")))
+        expect.append(("force_offset", case, a["force"],
+                       (poc.compute_poc(b["force"], "deviation_from_baseline"), np.array(b["force"], copy=True))))
         # tip offset
         method = rng.choice(["deviation_from_baseline", "frechet_direct_path", "gradient_zero_crossing"])
         o = {"correct_tip_offset": {"method": method}}
@@ -472,8 +477,26 @@ def tie(ctx, n_curves):
                 ctx.disagree(case, "column after the step", "model", f"{op}: implementation and Lean model differ")
         elif op == "force_offset":
             idp_m, vals = o.split(" out=")
+            aux, f_in = aux
             if int(idp_m.split("=")[1]) != int(aux):
-                ctx.dist["tie=ill-conditioned"] = ctx.dist.get("tie=ill-conditioned", 0) + 1
+                # the estimated contact index differs from the documented rule evaluated exactly (first sample that
+                # EXCEEDS the baseline mean by more than twice the largest baseline deviation).  Binary64 rounding can
+                # decide a near-tie differently - but only if it occurs: when the baseline mean of these integer
+                # forces is itself exact, every quantity of the rule is, and the two must agree
+                from fractions import Fraction
+                top = int(np.argmax(f_in)) if f_in.size else 0
+                bl = f_in[:top][:top // 10]
+                exact = bl.size > 0 and Fraction(float(np.mean(bl))) == sum(Fraction(float(v)) for v in bl) / int(bl.size)
+                if exact:
+                    ctx.violation("contact-index-not-the-documented-rule",
+                                  f"correct_force_offset / correct_tip_offset use contact index {aux} where the first sample "
+                                  "that exceeds the baseline mean by more than twice the largest baseline deviation is "
+                                  f"{idp_m} (all quantities exact in binary64): the pre-contact mean / the zero of the tip "
+                                  "position are taken at the wrong sample",
+                                  {"input": {**case, "force": [float(v) for v in f_in]}, "expected": idp_m,
+                                   "observed": int(aux)})
+                else:
+                    ctx.dist["tie=ill-conditioned"] = ctx.dist.get("tie=ill-conditioned", 0) + 1
                 continue
             if not close(impl, pl(vals), 1e-12):
                 ctx.disagree(case, f"idp={aux}", idp_m, "correct_force_offset: implementation and Lean model differ")
